@@ -646,7 +646,7 @@ macro_rules! raw_block_harness {
     };
 }
 
-// @verif-block props=C10 tier=quick cap=900 group=core doc=Tokenizer::handle_raw_tag_on_EVERY_raw_content_of_2_bytes_over_{LF,_CR,_space,_'a'}_closed_by_`{%endraw%}`,_trim_blocks_symbolic,_for_the_listed_right-hand_marker_of_`{%_raw_%}`:_the_content_is_emitted_verbatim_except_for_exactly_one_line_ending_(trim_blocks,_no_marker),_all_leading_whitespace_('-')_or_nothing_('+')
+// @verif-block props=C10 tier=experimental cap=900 group=core doc=Tokenizer::handle_raw_tag_on_EVERY_raw_content_of_2_bytes_over_{LF,_CR,_space,_'a'}_closed_by_`{%endraw%}`,_trim_blocks_symbolic,_for_the_listed_right-hand_marker_of_`{%_raw_%}`:_the_content_is_emitted_verbatim_except_for_exactly_one_line_ending_(trim_blocks,_no_marker),_all_leading_whitespace_('-')_or_nothing_('+')
 raw_block_harness!(c10_raw_block_default_marker, Whitespace::Default, 0);
 raw_block_harness!(c10_raw_block_minus_marker, Whitespace::Remove, 1);
 raw_block_harness!(c10_raw_block_plus_marker, Whitespace::Preserve, 2);
